@@ -39,6 +39,18 @@ def _cfg(sd, name, **d):
     return name
 
 
+def never_taken(res):
+    """actions whose count is 0:0 in the FINAL coverage report (TLC also prints interim reports, in which an action
+    may legitimately still be at 0 while the initial states are being computed; vlib collects zeros from all reports)"""
+    import re
+    last = {}
+    for line in res.tail:
+        m = re.match(r"^<(\w+) line .*>: (\d+):(\d+)$", line)
+        if m:
+            last[m.group(1)] = (int(m.group(2)), int(m.group(3)))
+    return sorted(a for a in set(res.coverage_zero) if last.get(a) == (0, 0))
+
+
 def run(ctx):
     sd = ctx.stage()
     q = ctx.quick
@@ -79,8 +91,8 @@ def run(ctx):
     else:
         r1 = ctx.tlc(sd, "MC_Correlation", _cfg(sd, "r1.cfg", defects="", ids=ABC, maxlen=3, nil="TRUE", mod=1, res=0, rest=INVS),
                      timeout=3000, coverage=True)
-        if r1.ok and r1.coverage_zero:
-            ctx.broken.append("vacuity: actions never taken in R1: %s" % sorted(set(r1.coverage_zero)))
+        if r1.ok and never_taken(r1):
+            ctx.broken.append("vacuity: actions never taken in R1: %s" % never_taken(r1))
         g = ctx.tlc(sd, "MC_Correlation", _cfg(sd, "gen.cfg", defects="", ids=ABC, maxlen=3, nil="FALSE", mod=1, res=0,
                                                rest=INVS + "\nACTION_CONSTRAINT EmitDone"), timeout=3000, behaviours_out=beh,
                     count=False)
@@ -116,8 +128,8 @@ def run(ctx):
     if not q and st == "accepted":
         def corrupt(evs):
             for e in evs:
-                if e["a"] == "Check" and e["out"]["res"] == "mismatch" and len(e["in"]["hdr"]) == len(e["in"]["body"]) >= 2:
-                    e["out"]["res"] = "ok"     # a mismatching pair reported as accepted
+                if e["a"] == "Check" and e["out"]["res"] == "mismatch" and len(e["in"]["hdr"]) != len(e["in"]["body"]):
+                    e["out"]["res"] = "ok"     # a header list of another length reported as accepted
                     break
             return evs
         vlib.selftest_rejects(ctx, sd, "Trace_Correlation", "Trace_Correlation.cfg", tr, corrupt)
